@@ -337,8 +337,16 @@ def gen_response_trace(rng, tid):
         ops.append(dict(r, c="httproot"))
         pairs.append((base + 2 * i, base + 2 * i + 1, polls.get(i)))
     grp = base + 2 * 7
+    # the raw bytes of two responses (Model/WireResp.v): the polls above and the group details, fetched over a raw socket
+    raw = {"polls": {}, "group": None}
+    for i, r in enumerate(reads):
+        if polls.get(i) is not None:
+            ops.append(dict(r, op="raw_cmd", kind_of="poll"))
+            raw["polls"][polls[i]] = (len(ops) - 1, base + 2 * i)
+    ops.append({"op": "raw_cmd", "kind_of": "get_group", "stream": 1, "topic": 1, "group": 1})
+    raw["group"] = (len(ops) - 1, grp)
     return {"id": tid, "cfg": {"req": rng.choice([1, 1000]), "seg_size": 1000000, "cache": rng.random() < 0.5}, "ops": ops,
-            "marks": {"pairs": pairs, "sent": sent, "group_at": grp, "members": len(members), "nparts": nparts}}
+            "marks": {"pairs": pairs, "sent": sent, "group_at": grp, "members": len(members), "nparts": nparts, "raw": raw}}
 
 
 def run_responses(out, tier, seed):
@@ -387,7 +395,69 @@ def run_responses(out, tier, seed):
                 i, what, x, y = problem
                 out.violation("resp-%s-%d" % (t["id"], i), {"kind": "spec-monitor", "mode": "srv", "trace": {"id": t["id"], "cfg": t["cfg"], "ops": t["ops"][:i + 1]},
                                                             "what": what, "first": x, "second": y})
-    return {"response_traces": n, "response_pairs_compared": compared, "response_failures": bad, "header_kinds_seen": sorted(hdr_kinds), "messages_with_headers_checked": msgs_checked}
+    # raw response bytes: the model's decoder must read what the SDK read, and the model's encoder must write the same bytes
+    terms, index = [], []
+    for t in traces:
+        ob = impl[t["id"]]
+        if "crash" in ob or "init_err" in ob:
+            continue
+        outs = ob["outs"]
+        rw = t["marks"]["raw"]
+        for part, (ri, si) in sorted(rw["polls"].items()):
+            if ri < len(outs) and si < len(outs) and outs[ri].get("r") == "ok" and outs[si].get("r") == "ok" and "full" in outs[si]:
+                body = list(bytes.fromhex(outs[ri]["body"]))
+                full = outs[si]["full"]
+                ms = []
+                for f in full:
+                    hs = [Raw("(mk_hdr %s %d %s)" % (show(list(h[0].encode())), h[1], show(list(bytes.fromhex(h[2]))))) for h in f["hdrs"]]
+                    ms.append(Raw("(mk_pmsg %d %d %d %s %d %s %s)" % (f["o"], f["state"], f["ts"], f["id"], f["checksum"], show(hs), show(list(bytes.fromhex(f["payload"]))))))
+                one_hdr = all(len(f["hdrs"]) <= 1 for f in full)
+                enc = "polled_enc_render %d %d %s" % (outs[si]["pid"], outs[si]["cur"], show(ms)) if one_hdr else "[]"
+                terms.append("(polled_dec_render %s, %s)" % (show(body), enc))
+                index.append((t, "poll", ri, si, one_hdr))
+        ri, si = rw["group"]
+        if ri < len(outs) and si < len(outs) and outs[ri].get("r") == "ok" and outs[si].get("r") == "ok" and outs[si].get("some"):
+            terms.append("group_dec_render %s" % show(list(bytes.fromhex(outs[ri]["body"]))))
+            index.append((t, "group", ri, si, False))
+    vals = coqrun.eval_terms("C13resp", "Base.Tactics Base.LE Model.Wire Model.WireMsg Model.WireResp", terms, shard_size=12)
+    raw_bad, raw_checked = 0, 0
+    for (t, kind, ri, si, one_hdr), v in zip(index, vals):
+        outs = impl[t["id"]]["outs"]
+        body = outs[ri]["body"]
+        raw_checked += 1
+        problem = None
+        if outs[ri].get("status") != 0:
+            problem = "the raw request is answered with status %s" % outs[ri].get("status")
+        elif kind == "poll":
+            dec, enc = v
+            sdk = (outs[si]["pid"], outs[si]["cur"], [(f["o"], f["state"], f["ts"], f["id"], f["checksum"], [tuple(h) for h in f["hdrs"]], f["payload"]) for f in outs[si]["full"]])
+            if not (isinstance(dec, tuple) and dec[0] == "Some"):
+                problem = "Model/WireResp.v dec_polled refuses the server's response"
+            else:
+                pid, cur, ms = dec[1]
+                mine = (pid, cur, sorted([(m[0], m[1], m[2], str(m[3]), m[4], sorted((bytes(h[0]).decode("latin1"), h[1], bytes(h[2]).hex()) for h in m[5]), bytes(m[6]).hex()) for m in ms]))
+                if mine != (sdk[0], sdk[1], sorted(sdk[2])):
+                    problem = "Model/WireResp.v dec_polled and the SDK read different data from the same response"
+                elif one_hdr and bytes(enc).hex() != body:
+                    problem = "Model/WireResp.v enc_polled writes other bytes than the server"
+        else:
+            if not (isinstance(v, tuple) and v[0] == "Some"):
+                problem = "Model/WireResp.v dec_group refuses the server's response"
+            else:
+                gid, pc, mc, nm, ms = v[1]
+                o = outs[si]
+                mine = (gid, pc, mc, bytes(nm).decode("latin1"), sorted((m[0], sorted(m[1])) for m in ms))
+                sdk = (o["id"], o["parts"], o["members_count"], o["name"], sorted((m["id"], sorted(m["parts"])) for m in o["members"]))
+                if mine != sdk:
+                    problem = "Model/WireResp.v dec_group and the SDK read different data from the same response"
+        if problem:
+            raw_bad += 1
+            if raw_bad <= 3:
+                out.violation("resp-raw-%s-%d" % (t["id"], ri), {"kind": "correspondence", "no_longer_checks": "corr_C13_resp (%s)" % problem, "mode": "srv",
+                                                                 "trace": {"id": t["id"], "cfg": t["cfg"], "ops": t["ops"][:ri + 1]}, "raw_response": outs[ri], "sdk": outs[si], "model": str(v)[:800]},
+                              no_failing_input=True)
+    return {"raw_responses_checked": raw_checked, "raw_response_disagreements": raw_bad,
+            "response_traces": n, "response_pairs_compared": compared, "response_failures": bad, "header_kinds_seen": sorted(hdr_kinds), "messages_with_headers_checked": msgs_checked}
 
 
 # ----------------------------------------------------------------------------- SendMessages (Model/WireMsg.v)
